@@ -226,7 +226,7 @@ def _worker_init(modname):
     _MOD = importlib.import_module(modname)
     sys.setrecursionlimit(1000)
     import logging
-    logging.disable(logging.CRITICAL)
+    logging.getLogger('pylatexenc').addHandler(logging.NullHandler())   # keep the library's warnings off stderr
 
 def _worker_eval(chunk):
     out = []
